@@ -3,6 +3,7 @@ import TxVerif.Tie.Skeleton
 import TxVerif.Props.C04C07Engine
 import TxVerif.Props.C03History
 import TxVerif.Props.Lifetime
+import TxVerif.Tie.Fixes
 open TxVerif
 #print axioms abort_is_identity
 #print axioms next_tx_identical
@@ -40,3 +41,5 @@ open TxVerif
 #print axioms c07u_next_tx_identical_failed
 #print axioms runTxnO_of_not_commitsU
 #print axioms lifetime_abort_restores
+#print axioms Tie.fix_rollbackChanges
+#print axioms Tie.fix_restoreMeta
